@@ -18,7 +18,8 @@ Days == IF Full THEN {DaysFromCivil(1980, 1, 1), DaysFromCivil(1999, 12, 31), Da
                       DaysFromCivil(2024, 2, 29), DaysFromCivil(2059, 12, 31)}
         ELSE {DaysFromCivil(1980, 1, 1), DaysFromCivil(2000, 2, 29), DaysFromCivil(2059, 12, 31)}
 Sods == IF Full THEN {0, 1, 43200, 86399} ELSE {0, 86399}
-Nanos == IF Full THEN {0, 500000000, 123456789, 999999999, 1} ELSE {123456789}
+\* 45000001: zeros in front of and inside the fraction at every truncation length
+Nanos == IF Full THEN {0, 500000000, 123456789, 999999999, 1, 45000001, 7000} ELSE {123456789, 45000001}
 
 Init == day \in Days /\ sod \in Sods /\ ns \in Nanos /\ off \in Offsets /\ nd \in 0..9
 Next == UNCHANGED vars
